@@ -1,7 +1,7 @@
 use rten_base::num::IsNaN;
 use rten_shape_inference::UnaryOp;
 use rten_tensor::prelude::*;
-use rten_tensor::{Tensor, TensorView};
+use rten_tensor::{SliceItem, Tensor, TensorView};
 use smallvec::SmallVec;
 
 use crate::buffer_pool::{AutoReturn, BufferPool};
@@ -81,7 +81,25 @@ pub fn scatter_elements<
     let axis_size = data.size(axis);
     let mut output = data.to_tensor_in(pool);
 
-    for (output_lane, (update_lane, index_lane)) in output
+    // `indices` may be smaller than `data` in dimensions other than `axis`.
+    // An update at position `[i, j, k]` in `indices` is applied to position
+    // `[i, indices[i, j, k], k]` (if `axis` is 1) in `data`, so the lanes of
+    // `indices` correspond to lanes in the leading part of `data`.
+    let mut updated_region: SmallVec<[SliceItem; 4]> = SmallVec::new();
+    for dim in 0..data.ndim() {
+        if dim == axis {
+            updated_region.push(SliceItem::full_range());
+        } else if indices.size(dim) <= data.size(dim) {
+            updated_region.push(SliceItem::Range((0..indices.size(dim)).into()));
+        } else {
+            return Err(OpError::InvalidValue(
+                "`indices` must not be larger than `data`",
+            ));
+        }
+    }
+    let mut output_region = output.slice_mut(updated_region.as_slice());
+
+    for (output_lane, (update_lane, index_lane)) in output_region
         .lanes_mut(axis)
         .zip(updates.lanes(axis).zip(indices.lanes(axis)))
     {
